@@ -16,14 +16,22 @@ NAMESPACE = 'XrlCpp.C18'
 PROPS_FILE = os.path.join(PROJECT, 'XrlCpp', 'Props', 'C18.lean')
 FINDINGS_FILE = None
 LEAK_KEY = 'cplusplus/xraylib++.h:_process_error throws without releasing the xrl_error'
-NONVACUITY = ['example : headerPE.Conforms', 'example : Reachable', 'example : Gen.cProtos.length']
+NONVACUITY = ['example : headerPE.Conforms', 'example : Reachable', 'example : Gen.cProtos.length', 'example : Gen.classMaps.length', 'example : Gen.errorCodes.length', 'example : structFits', 'example : OutFits']
+# wrappers whose success path needs a populated Kissel table (data/kissel_pe.dat is empty as shipped): second pass on the regenerated table
+KISSEL_RE = re.compile(r'Kissel|Photo_Total|Photo_Partial|^ElectronConfig$')
+# driver op -> the C function whose table entry the executable model is asked about (default: the op itself)
+ENTRY_OF = {'Atomic_FactorsM': 'Atomic_Factors', 'StructAdd': 'Crystal_AddCrystal', 'StructAddF': 'Crystal_AddCrystal'}
+NO_ENTRY = {'ProcessError', 'StructCopy', 'StructNew'}          # synthetic / composite ops: plain protocol
 TRUSTED = [
     'Lean 4.33 kernel (lake build of XrlCpp.Props.C18; thorough tier: leanchecker)',
     'axioms allowed: propext, Classical.choice, Quot.sound (audited by #print axioms on every run)',
-    'tools/extract_cpp.py + clang-14 JSON AST of cplusplus/xraylib++.h and include/*.h: wrapper table and _process_error description; '
+    'tools/extract_cpp.py + clang-14 JSON AST of cplusplus/xraylib++.h and include/*.h: wrapper table (callee, forwarded arguments, error check, release, returned value as a term over the C result), '
+    'member-initialiser lists (field maps), C struct declarations, xrl_error_code enumerators and _process_error description; '
     'checked on every run by the three-way correspondence (C driver, C++ driver, executable model) and by refusing anything unclassified',
     'hand model lean-cpp/XrlCpp/Hand/{Cpp,Struct}.lean of the wrapper protocol and of Crystal::Struct ownership: trusted as far as the correspondence run exercises it',
     'the C library is the reference: its own behaviour (values, error codes, C-side leaks) is the subject of C01-C17, not of C18',
+    'tools/regen_kissel.py (port of data/kissel/kissel.pro) for the second data configuration: only used to obtain a populated Kissel table on which both drivers are run; '
+    'a wrong table would make both sides wrong alike',
     'modelled, not verified: the C++ compiler and runtime (exception propagation, std::vector/std::string copies), the allocator; '
     'ASan/UBSan and the --wrap live-block counter are observers of the correspondence run only',
 ]
@@ -193,8 +201,10 @@ class Gen:
         rule = ('every _XRL_FUNCTION wrapper x its discrete argument space (Z in [-3,125] x every macro in and +-3 around the header range), %s; '
                 'continuous arguments (energies at table ends / element edges +- 1e-9 rel., 0, negatives; angles; q; densities) drawn per tuple; strings: valid formulas, '
                 'NIST names, generated formulas, garbage, 1-byte mutations; every hand-written wrapper: all symbols, Z, NIST/nuclide indices +-3 and names, %d formulas, '
-                'all %d crystals x Miller indices x energies x flags; Crystal::Struct copy/new/add scenarios; _process_error on codes -1(NULL),0..7; '
-                'allocation-failure injection; histories of the ownership model; all choices from VERIF_SEED=%d') % (
+                'all %d crystals x Miller indices x energies x flags, each line through the Crystal::Struct method AND the free function of namespace Crystal; '
+                'Crystal::Struct copy/new/add scenarios; _process_error on codes -1(NULL),0..7; allocation-failure injection (XRL_ERROR_MEMORY); the built-in crystal array filled until '
+                'Crystal_AddCrystal reports XRL_ERROR_RUNTIME; histories of the ownership model; every line of a Kissel-dependent wrapper (name matches Kissel|Photo_Total|Photo_Partial|ElectronConfig) '
+                'a second time on the data configuration with the Kissel table regenerated from data/kissel; all choices from VERIF_SEED=%d') % (
                     'enumerated completely up to %d tuples per wrapper, else a seeded uniform subsample of that size, plus a mostly-valid stratum of the same size (Z in 1..98, inner shells / strong lines, energies above the edges)' % cap, len(forms), len(cat['crystals']), self.ctx.seed)
         return lines, rule
 
@@ -206,9 +216,12 @@ class Gen:
             s = []; src = rng.sample(cat['crystals'], 5)
             for j, n in enumerate(src):
                 nn = '%s_v%d' % (n, j)
-                s += ['StructAdd %s %s E' % (xapi.sarg(n), xapi.sarg(nn)), 'Crystal_GetCrystal %s E' % xapi.sarg(nn), 'Crystal_UnitCellVolume %s E' % xapi.sarg(nn)]
-                if rng.random() < 0.5: s.append('StructAdd %s %s E' % (xapi.sarg(n), xapi.sarg(nn)))
-                s.append('StructAdd %s %s E' % (xapi.sarg(n), xapi.sarg(n)))
+                # StructAdd: Crystal::Struct::AddCrystal (method); StructAddF: Crystal::AddCrystal (free function) -- alternating, both in every session
+                A = ('StructAdd', 'StructAddF') if (j + k) % 2 == 0 else ('StructAddF', 'StructAdd')
+                s += ['%s %s %s E' % (A[0], xapi.sarg(n), xapi.sarg(nn)), 'Crystal_GetCrystal %s E' % xapi.sarg(nn), 'Crystal_UnitCellVolume %s E' % xapi.sarg(nn)]
+                if rng.random() < 0.5: s.append('%s %s %s E' % (A[1], xapi.sarg(n), xapi.sarg(nn)))
+                s.append('%s %s %s E' % (A[1], xapi.sarg(n), xapi.sarg(n)))
+                s.append('%s %s %s E' % (A[0], xapi.sarg(n), xapi.sarg(n)))
             s += ['Crystal_GetCrystalsList E', 'Bragg_angle %s %s 1 1 1 E' % (xapi.sarg(src[0] + '_v0'), xapi.hx(10.0))]
             out.append(s)
         # allocation failure: the k-th allocation of the call fails once -> XRL_ERROR_MEMORY -> std::bad_alloc (or the C code aborts: then both abort)
@@ -219,6 +232,12 @@ class Gen:
         for tline in targets:
             for k in (1, 2, 3):
                 s += ['!failalloc %d' % k, tline]
+        out.append(s)
+        # fill the built-in crystal array (fixed size): once it is full Crystal_AddCrystal reports XRL_ERROR_RUNTIME — the one code other than
+        # MEMORY / INVALID_ARGUMENT that a wrapped C function produces on this tree — through both routes
+        s = []
+        for i in range(640):
+            s.append('%s %s %s E' % ('StructAdd' if i % 2 == 0 else 'StructAddF', xapi.sarg(cat['crystals'][i % len(cat['crystals'])]), xapi.sarg('fill_%04d' % i)))
         out.append(s)
         return out
 
@@ -237,7 +256,8 @@ class Gen:
                 elif c < 0.53: ops.append(('m', rng.randrange(nobj + 1))); nobj += 1      # move-construct / vector growth: copies in the model
                 elif c < 0.56: ops.append(('w', rng.randrange(nobj + 1))); nobj += 1
                 elif c < 0.74: ops.append(('d', rng.randrange(nobj + 1)))
-                elif c < 0.90: ops.append(('k', rng.randrange(nobj + 1)))
+                elif c < 0.84: ops.append(('k', rng.randrange(nobj + 1)))
+                elif c < 0.92: ops.append(('f', rng.randrange(nobj + 1)))      # method that walks the atom array of the C struct
                 else: ops.append(('r', rng.randrange(nobj + 1)))
             out.append((names, forms, ops))
         return out
@@ -251,7 +271,7 @@ def parse_hist(line):
 def hist_lines(names, forms, ops):
     cpp = 'Hist %d %s %d %s %s' % (len(names), ' '.join(xapi.sarg(n) for n in names), len(forms), ' '.join(xapi.sarg(f) for f in forms), ' '.join('%s%d' % o for o in ops))
     # the unchanged header has no move constructor and no special vector support: `m` and `w` are copies in the ownership model
-    mod = 'hist ' + ' '.join('%s%d' % ('c' if o in ('m', 'w') else o, (x + 100) if o == 'p' else x) for o, x in ops)
+    mod = 'hist ' + ' '.join('%s%d' % ('c' if o in ('m', 'w') else 'k' if o == 'f' else o, (x + 100) if o == 'p' else x) for o, x in ops)
     return cpp, mod
 
 # ------------------------------------------------------------------------------------------------ the check
@@ -261,6 +281,10 @@ class C18:
 
     def run(self, tier, seed, replay=None):
         ctx = core.Ctx('C18', tier, seed)
+        self._no_kissel = False
+        if replay:
+            try: self._no_kissel = '@config' not in open(replay).read()
+            except OSError: pass
         try:
             return self._run(ctx, replay)
         except BuildError as e:
@@ -272,12 +296,19 @@ class C18:
                                 explanation='build failed: ' + str(e)[:500], evaluations=1, distinct_nontrivial=0), 1)
             return 1
         finally:
+            fut = getattr(self, '_ktable', None)
+            if fut is not None:
+                try: fut.result()        # never remove the scratch directory under a running compiler
+                except Exception: pass
             ctx.close()
 
     # ---- build everything from the working tree
     def build(self, ctx, rep):
         sc = ctx.sc; aux = sc.path('aux'); os.makedirs(aux, exist_ok=True)
         ctx.build_c()
+        # the table object of the second data configuration is made in the background while the Lean side is built
+        self._kpool = ThreadPoolExecutor(max_workers=1)
+        self._ktable = self._kpool.submit(self.kissel_table, ctx, 'real') if not getattr(self, '_no_kissel', False) else None
         t = time.time()
         with xdrv.Lock(os.path.join(PROJECT, '.verif.lock')):
             p = subprocess.run([sys.executable, os.path.join(VERIF, 'tools', 'extract_cpp.py'), sc.path('b'), os.path.join(PROJECT, 'XrlCpp', 'Gen'), aux],
@@ -318,6 +349,7 @@ class C18:
             if w not in src: rep['problems'].append('non-vacuity witness `%s` missing from %s' % (w, MODULE))
         tables = json.load(open(os.path.join(aux, 'cpp_tables.json')))
         if not ok_props and 'wrapper_table_complete' in rep['proof_broken']: rep['table_diagnosis'] = diagnose_table(tables)[:20]
+        if not ok_props and 'field_maps_complete' in rep['proof_broken']: rep['table_diagnosis'] = (rep.get('table_diagnosis', []) + diagnose_maps(tables))[:20]
         t = time.time()
         def b1(): return xdrv.build_c_driver(sc, ctx.objs, ctx.cfl, aux)
         with ThreadPoolExecutor(max_workers=2) as ex:
@@ -328,7 +360,42 @@ class C18:
                        list(ctx.objs) + ['-lm', xdrv.WRAP, '-o', sc.path('cppdrv')])
             cdrv, _ = f1.result()
         ctx.tick('drivers', t)
-        return dict(tables=tables, theorems=theorems, axioms=axioms, ok_props=ok_props, cdrv=cdrv, cppdrv=sc.path('cppdrv'), model=sc.path('xrlcpp-model'))
+        return dict(tables=tables, theorems=theorems, axioms=axioms, ok_props=ok_props, cdrv=cdrv, cppdrv=sc.path('cppdrv'), model=sc.path('xrlcpp-model'), aux=aux, allocwrap_cpp=ao)
+
+    def kissel_table(self, ctx, kind='real'):
+        """-> the table object (xrayglob_inline.c compiled) of the data configuration with the regenerated Kissel table"""
+        sc = ctx.sc; t = time.time()
+        root = sc.path('kroot_' + kind); os.makedirs(os.path.join(root, 'data'), exist_ok=True)
+        for f in os.listdir(os.path.join(REPO, 'data')):
+            src = os.path.join(REPO, 'data', f); dst = os.path.join(root, 'data', f)
+            if f != 'kissel_pe.dat' and not os.path.lexists(dst): os.symlink(src, dst)
+        p = subprocess.run([sys.executable, os.path.join(VERIF, 'tools', 'regen_kissel.py'), os.path.join(REPO, 'data', 'kissel'), os.path.join(root, 'data', 'kissel_pe.dat')],
+                           capture_output=True, text=True)
+        if p.returncode != 0: raise BuildError('regen_kissel.py failed: ' + p.stderr[-1000:])
+        inline = cbuild.build_prdata(sc, REPO, data_root=root, bname='bK' + kind)
+        o = sc.path('xrayglob_inline_K%s.o' % kind)
+        cbuild.run(['clang-14'] + cbuild.cflags(REPO, sc.path('b')) + ['-O0', '-g0', '-w', '-fsanitize=address', '-c', inline, '-o', o])
+        ctx.tick('kissel_table_' + kind, t)
+        return o
+
+    def build_kissel(self, ctx, b, kind='real'):
+        """the same two drivers on the second data configuration: data/kissel_pe.dat REGENERATED from the raw files of data/kissel
+        (tools/regen_kissel.py, a port of data/kissel/kissel.pro) and passed through the working tree's own prdata; same code objects,
+        only the generated table file differs.  -> dict like `build`'s with the drivers of that configuration"""
+        sc = ctx.sc; t = time.time()
+        fut = getattr(self, '_ktable', None)
+        o = fut.result() if fut is not None else self.kissel_table(ctx, kind)
+        objs = [x for x in ctx.objs if not x.endswith('xrayglob_inline.c.o')] + [o]
+        if len(objs) != len(ctx.objs): raise BuildError('table object of the first configuration not found among the library objects')
+        aux = b['aux']
+        def b1(): return xdrv.build_c_driver(_Sub(sc, '_K' + kind), objs, ctx.cfl, aux)
+        with ThreadPoolExecutor(max_workers=2) as ex:
+            f1 = ex.submit(b1)
+            cbuild.run(['clang++-14', '-std=gnu++17'] + ctx.cfl + ['-I' + aux, '-I' + os.path.join(REPO, 'cplusplus'), os.path.join(xdrv.HARNESS, 'cppdrv.cpp'), b['allocwrap_cpp']] +
+                       objs + ['-lm', xdrv.WRAP, '-o', sc.path('cppdrv_K' + kind)])
+            cdrv, _ = f1.result()
+        ctx.tick('kissel_config_' + kind, t)
+        return dict(b, cdrv=cdrv, cppdrv=sc.path('cppdrv_K' + kind))
 
     # ---- judge one line
     def judge(self, line, c_ans, w_ans, m_ans):
@@ -360,10 +427,24 @@ class C18:
                              leak_delta=w['live'] - c['live'], threw=(w['kind'] == 'throw'))
         return tie, None
 
-    def model_line(self, c_ans):
+    def judge_all(self, line, c_ans, w_ans, m_ans):
+        """a line answered through several routes (`<method> || <free function>`): the first route that is judged wrong"""
+        tie = True; v = None
+        for wa in w_ans.split(' || '):
+            t1, v1 = self.judge(line, c_ans, wa, m_ans)
+            tie = tie and t1
+            if v is None: v = v1
+        return tie, v
+
+    def model_line(self, c_ans, line=None):
+        """the observed behaviour of the C call, for the executable model; with `line`: asked of the extracted table entry that
+        forwards to the C function the line names (`wrapw`), so that what the model says depends on that entry's `checked` flag"""
         c = xdrv.parse_c(c_ans)
         if c['kind'] != 'ok': return None
-        return 'wrap 1 %s 0 %d %s' % ('E' if c['code'] is None else 'F%d' % c['code'], max(c['live'], 0), c['msg'] or '')
+        obs = '1 %s 0 %d %s' % ('E' if c['code'] is None else 'F%d' % c['code'], max(c['live'], 0), c['msg'] or '')
+        fn = line.split(' ')[0] if line else None
+        if not fn or fn in NO_ENTRY or fn.startswith('!'): return 'wrap ' + obs
+        return 'wrapw %s %s' % (ENTRY_OF.get(fn, fn), obs)
 
     def run_model(self, b, lines):
         if not lines: return []
@@ -376,7 +457,7 @@ class C18:
             fc = ex.submit(xdrv.run_driver, [b['cdrv']], lines, None, chunk, 8)
             fw = ex.submit(xdrv.run_driver, [b['cppdrv']], lines, None, chunk, 8)
             c = fc.result(); w = fw.result()
-        ml = [self.model_line(a) for a in c]
+        ml = [self.model_line(a, l) for a, l in zip(c, lines)]
         mo = self.run_model(b, [m for m in ml if m is not None])
         it = iter(mo)
         m = [next(it) if x is not None else None for x in ml]
@@ -387,27 +468,36 @@ class C18:
         known = xdrv.load_findings('C18', FINDINGS_FILE)
         b = self.build(ctx, rep)
         pe = b['tables']['pe']
-        dist = {}; viols = []; tie_mis = []; leaks = []; samples = []; n_eval = 0; nontriv = set()
+        dist = {}; distK = {}; viols = []; tie_mis = []; leaks = []; samples = []; n_eval = 0; nontriv = set()
         skipped = []
-        def account(line, c_ans, w_ans, m_ans, prefix=None):
-            nonlocal n_eval
+        self.builds = {'': b}
+        ctx.routes = dict(lines_with_two_routes=0)
+        def account(line, c_ans, w_ans, m_ans, prefix=None, cfg=''):
+            """one line of the stream; a crystal query is answered through the method and through the free function: both are judged"""
             if line.startswith('!'): return
+            routes = w_ans.split(' || ')
+            if len(routes) > 1: ctx.routes['lines_with_two_routes'] += 1
+            for ri, wa in enumerate(routes):
+                account1(line, c_ans, wa, m_ans, prefix, cfg, '@free-function' if ri else '')
+        def account1(line, c_ans, w_ans, m_ans, prefix, cfg, route):
+            nonlocal n_eval
             n_eval += 1
             if prefix and ('s(null)' in c_ans or c_ans.startswith('died') or (w_ans.startswith('throw other:St11logic_error') and 'construction%20from%20null' in w_ans)):
                 # injected allocation failure that the C code does not report (it returns an object with a NULL member, or
                 # aborts): the C result is not a value the property speaks about (C03/C04's subject); counted, not judged
                 skipped.append((prefix, line, c_ans[:100], w_ans[:100])); return
-            fn = line.split(' ')[0]
-            d = dist.setdefault(fn, dict(calls=0, ok=0, err={}, died=0, msgs=set()))
+            fn = line.split(' ')[0] + route
+            d = (distK if cfg else dist).setdefault(fn, dict(calls=0, ok=0, err={}, died=0, msgs=set()))
             d['calls'] += 1
             c = xdrv.parse_c(c_ans)
-            if c['kind'] == 'ok' and c['code'] is None: d['ok'] += 1; nontriv.add((fn, 'ok'))
-            elif c['kind'] == 'ok': d['err'][str(c['code'])] = d['err'].get(str(c['code']), 0) + 1; d['msgs'].add(xapi.unesc(c['msg'] or '')[:60]); nontriv.add((fn, c['code'], (c['msg'] or '')[:40]))
+            if c['kind'] == 'ok' and c['code'] is None: d['ok'] += 1; nontriv.add((fn, 'ok', cfg))
+            elif c['kind'] == 'ok': d['err'][str(c['code'])] = d['err'].get(str(c['code']), 0) + 1; d['msgs'].add(xapi.unesc(c['msg'] or '')[:60]); nontriv.add((fn, c['code'], (c['msg'] or '')[:40], cfg))
             elif c['kind'] == 'died': d['died'] += 1
             tie, v = self.judge(line, c_ans, w_ans, m_ans)
             if not tie: tie_mis.append((line, c_ans, w_ans, m_ans))
             if v:
-                v = dict(v, key=(prefix + '\n' + line) if prefix else line, got=w_ans[:400], c=c_ans[:400])
+                if route: v = dict(v, what=v['what'] + ' (through the free function of namespace Crystal)')
+                v = dict(v, key=(prefix + '\n' + line) if prefix else line, got=w_ans[:400], c=c_ans[:400], cfg=cfg)
                 if v['leak_only'] and v.get('threw') and v.get('leak_delta') == 2: leaks.append(v)
                 else: viols.append(v)
         if replay:
@@ -421,10 +511,20 @@ class C18:
                     self.histories(ctx, b, g, rep, viols, dist, [parse_hist(l) for l in hl])
                     n_eval += len(hl)
                     print('%d ownership histories replayed, %d disagree with the model' % (len(hl), len(viols)))
-                c, w, m = self.three_way(b, rl, None)
-                for i, (l, ca, wa, ma) in enumerate(zip(rl, c, w, m)):
-                    print('%s\n   C   : %s\n   C++ : %s\n   model: %s' % (l, ca[:300], wa[:300], ma))
-                    account(l, ca, wa, ma, rl[i - 1] if i and rl[i - 1].startswith('!') else None)
+                # `@config kissel-real` / `@config shipped`: the data configuration the following lines are run on
+                segs = []; cfg = ''
+                for l in rl:
+                    if l.startswith('@config'): cfg = '' if l.split()[-1] == 'shipped' else l.split()[-1]; continue
+                    if not segs or segs[-1][0] != cfg: segs.append((cfg, []))
+                    segs[-1][1].append(l)
+                for cfg, sl in segs:
+                    if cfg and cfg not in self.builds:
+                        if cfg != 'kissel-real': raise BuildError('replay file names an unknown data configuration: ' + cfg)
+                        self.builds[cfg] = self.build_kissel(ctx, b, 'real')
+                    c, w, m = self.three_way(self.builds[cfg], sl, None)
+                    for i, (l, ca, wa, ma) in enumerate(zip(sl, c, w, m)):
+                        print('%s%s\n   C   : %s\n   C++ : %s\n   model: %s' % (l, '   [data configuration: %s]' % cfg if cfg else '', ca[:300], wa[:300], ma))
+                        account(l, ca, wa, ma, sl[i - 1] if i and sl[i - 1].startswith('!') else None, cfg)
         if not replay:
             g = Gen(ctx, b['tables'], b['cdrv'])
             corpus = core_corpus('C18')
@@ -438,6 +538,17 @@ class C18:
                 c, w, m = self.three_way(b, s, None)
                 for i, (l, ca, wa, ma) in enumerate(zip(s, c, w, m)): account(l, ca, wa, ma, s[i - 1] if i and s[i - 1].startswith('!') else None)
             ctx.tick('correspondence', t)
+            # second data configuration — the one the property names: the Kissel table regenerated from the raw files.  The shipped
+            # data/kissel_pe.dat is empty, so every wrapper of the Kissel family (and ElectronConfig, CS(b)_Photo_Total/_Partial) only
+            # ever fails above; here the same lines (and the corpus) are run again where those calls succeed.
+            t = time.time()
+            bk = self.builds['kissel-real'] = self.build_kissel(ctx, b, 'real')
+            kl = [l for l in lines if KISSEL_RE.search(l.split(' ')[0])]
+            ck, wk, mk = self.three_way(bk, kl, 5000)
+            for l, ca, wa, ma in zip(kl, ck, wk, mk): account(l, ca, wa, ma, None, 'kissel-real')
+            ki = sorted(ctx.rng.sample(range(len(kl)), min(4, len(kl))))
+            samples += [dict(call=kl[i], data_configuration='kissel-real', c=ck[i][:200], cpp=wk[i][:200], model=mk[i]) for i in ki]
+            ctx.tick('kissel_pass', t)
             # histories of the ownership model: real objects vs Hand/Struct.lean
             t = time.time()
             self.histories(ctx, b, g, rep, viols, dist)
@@ -455,18 +566,23 @@ class C18:
             else: viols += leaks
         if pe['frees'] and leaks:
             rep['tie_broken'].append('_process_error releases the error according to the extraction, but %d throwing calls still leave 2 blocks' % len(leaks))
-        ctx.skipped = skipped
+        ctx.skipped = skipped; ctx.distK = distK
         return self.report(ctx, b, rep, viols, leaks, lsan, dist, samples, n_eval, len(nontriv), replay)
 
     def hist_obs(self, b, cat):
         """what a method call / member read must show for each catalogue entry, from the C reference"""
         q = ['Crystal_UnitCellVolume %s E' % xapi.sarg(n) for n in cat['crystals']] + ['Crystal_GetCrystal %s E' % xapi.sarg(n) for n in cat['crystals']] + \
-            ['CompoundParser %s E' % xapi.sarg(f) for f in xapi.FORMULAS_OK]
+            ['CompoundParser %s E' % xapi.sarg(f) for f in xapi.FORMULAS_OK] + \
+            ['Crystal_F_H_StructureFactor %s %s 1 1 1 %s %s E' % (xapi.sarg(n), xapi.hx(8.0), xapi.hx(1.0), xapi.hx(1.0)) for n in cat['crystals']]      # = op `f` of cppdrv.cpp
         a = xdrv.run_driver([b['cdrv']], q, chunk=None)
-        nC = len(cat['crystals'])
+        nC = len(cat['crystals']); nF = len(xapi.FORMULAS_OK)
+        def re_part(ans):
+            p = xdrv.parse_c(ans)
+            return p['vals'][0] if p['kind'] == 'ok' and p['code'] is None and p['vals'] else None
         return dict(ucv={n: xdrv.parse_c(a[i])['vals'][0] for i, n in enumerate(cat['crystals'])},
                     vol={n: xdrv.parse_c(a[nC + i])['vals'][7] for i, n in enumerate(cat['crystals'])},
-                    mm={f: xdrv.parse_c(a[2 * nC + i])['vals'][-1] for i, f in enumerate(xapi.FORMULAS_OK)})
+                    mm={f: xdrv.parse_c(a[2 * nC + i])['vals'][-1] for i, f in enumerate(xapi.FORMULAS_OK)},
+                    fh={n: re_part(a[2 * nC + nF + i]) for i, n in enumerate(cat['crystals'])})
 
     def hist_run(self, b, obs, items):
         """real wrapper objects vs Hand/Struct.lean on histories -> [(cpp line, cpp answer, model answer, complaint or None)]"""
@@ -494,7 +610,7 @@ class C18:
                         if me[0] != we: bad = 'op %s%d: model %s, objects %s' % (o, x, me, we); break
                         if me[0] == 'v':
                             cid = int(me[1:])
-                            exp = obs['mm'][forms[cid - 100]] if cid >= 100 else (obs['ucv'][names[cid]] if o == 'k' else obs['vol'][names[cid]])
+                            exp = obs['mm'][forms[cid - 100]] if cid >= 100 else (obs['ucv'][names[cid]] if o == 'k' else obs['fh'][names[cid]] if o == 'f' else obs['vol'][names[cid]])
                             if wb != exp: bad = 'op %s%d: object answered from other contents than those it was built from (%s, expected %s)' % (o, x, wb, exp); break
                     if not bad and wL != 3 * mL: bad = 'live C blocks %d, model says %d objects x 3 blocks' % (wL, mL)
                     if not bad and wZ != 0: bad = '%d blocks live after every wrapper object was destroyed' % wZ
@@ -516,6 +632,8 @@ class C18:
         items = items if items is not None else g.histories()
         if not items: return
         obs = self.hist_obs(b, g.catalog)
+        # `f` needs the C reference value of the structure factor; a crystal for which C reports an error there is asked for its volume instead
+        items = [(names, forms, [('k' if (o == 'f' and any(obs['fh'][n] is None for n in names)) else o, x) for o, x in ops]) for names, forms, ops in items]
         d = dist.setdefault('Hist', dict(calls=0, ok=0, err={}, died=0, msgs=set()))
         first = True
         for item, (line, wa, ma, bad) in zip(items, self.hist_run(b, obs, items)):
@@ -543,10 +661,11 @@ class C18:
     def shrink(self, b, v):
         """shrink integers toward 0 / doubles toward simple values / strings by deletion while the same kind of disagreement persists"""
         line = v['key']
-        if line.split(' ')[0] in ('Hist', 'StructAdd') or line.startswith('!') or '\n' in line: return line
+        if line.split(' ')[0] in ('Hist', 'StructAdd', 'StructAddF') or line.startswith('!') or '\n' in line: return line
+        b = self.builds.get(v.get('cfg', ''), b)
         def fails(l):
             c, w, m = self.three_way(b, [l], None)
-            _, vv = self.judge(l, c[0], w[0], m[0])
+            _, vv = self.judge_all(l, c[0], w[0], m[0])
             return vv is not None and vv['what'].split(':')[0] == v['what'].split(':')[0]
         t = line.split(' ')
         for _ in range(3):
@@ -574,12 +693,14 @@ class C18:
             body = '# violation of C18: the C++ wrapper does not do what the C function does (replay: ./check C18 --replay <this file>)\n'
             seen = set(); k = 0
             for v in viols:
-                cls = (v['key'].split(' ')[0], v['what'].split(':')[0])
+                cls = (v['key'].split(' ')[0], v['what'].split(':')[0], v.get('cfg', ''))
                 if cls in seen: continue
                 seen.add(cls); k += 1
                 if k > 12: break
                 key = self.shrink(b, v) if k <= 3 else v['key']
-                body += '# %s\n# C        : %s\n# C++      : %s\n# expected : %s\n%s\n' % (v['what'], v.get('c', ''), v['got'], v.get('expected'), key)
+                if v.get('cfg'): key = '@config %s\n%s\n@config shipped' % (v['cfg'], key)
+                body += '# %s%s\n# C        : %s\n# C++      : %s\n# expected : %s\n%s\n' % (v['what'], ' [data configuration %s: Kissel table regenerated from data/kissel]' % v['cfg'] if v.get('cfg') else '',
+                                                                                      v.get('c', ''), v['got'], v.get('expected'), key)
             body += '# %d failing lines in total\n' % len(viols)
             for d in rep.get('table_diagnosis', []): body += '# wrapper table: %s\n' % d
             if broken: body += '# broken obligations: %s\n' % json.dumps(dict(proof=rep['proof_broken'], tie=rep['tie_broken'], other=rep['problems']))[:3000]
@@ -597,7 +718,25 @@ class C18:
             exit_code = 1
         ths = b['theorems']; ax = b['axioms']
         n_dis = 0 if not b['ok_props'] else sum(1 for th in ths if th in ax and not (set(ax[th]) - xdrv.ALLOWED_AXIOMS))
-        for d in dist.values(): d['msgs'] = sorted(d['msgs'])[:8]
+        distK = getattr(ctx, 'distK', {})
+        for d in list(dist.values()) + list(distK.values()): d['msgs'] = sorted(d['msgs'])[:8]
+        # success path per wrapper, over both data configurations
+        t_ = b['tables']
+        callable_ops = sorted(set(t_['generic']) | {k.split('@')[0] for k in dist if k.split('@')[0] not in ('Hist', 'ProcessError')})
+        okc = {fn: dict(shipped=sum(d['ok'] for k, d in dist.items() if k.split('@')[0] == fn), kissel_real=sum(d['ok'] for k, d in distK.items() if k.split('@')[0] == fn)) for fn in callable_ops}
+        kfam = sorted(fn for fn in t_['generic'] if KISSEL_RE.search(fn))
+        unobserved = sorted(fn for fn, o in okc.items() if o['shipped'] + o['kissel_real'] == 0) if not replay else []
+        if unobserved: ctx.notes.append('no successful call observed for: %s' % ', '.join(unobserved))
+        # error codes: which enumerators the C sources can put into an error object, and through which route each was compared
+        produced = set()
+        for f in sorted(os.listdir(os.path.join(REPO, 'src'))):
+            if f.endswith('.c'):
+                try: produced |= set(re.findall(r'xrl_set_error(?:_literal)?\s*\(\s*\w+\s*,\s*(XRL_ERROR_\w+)', open(os.path.join(REPO, 'src', f), errors='replace').read()))
+                except OSError: pass
+        def hits(code, real):
+            return sum(d['err'].get(str(code), 0) for dd in (dist, distK) for k, d in dd.items() if (k.split('@')[0] != 'ProcessError') == real)
+        code_tab = [dict(name=n, value=v, expected_exception=spec_kind(v), set_somewhere_in_src=(n in produced),
+                         compared_through_wrapped_calls=hits(v, True), compared_through_direct_process_error_drive=hits(v, False)) for n, v in t_.get('error_codes', [])]
         tot = dict(calls=sum(d['calls'] for d in dist.values()), ok=sum(d['ok'] for d in dist.values()),
                    err=sum(sum(d['err'].values()) for d in dist.values()), died=sum(d['died'] for d in dist.values()))
         codes = {}
@@ -609,9 +748,20 @@ class C18:
                    trusted_base=TRUSTED, theorems=[dict(name=th, axioms=ax.get(th)) for th in ths],
                    traces_validated_against_impl=n_eval, correspondence_mismatches=len(rep['tie_broken']),
                    evaluations=n_eval, distinct_nontrivial=n_nontriv,
-                   rule=getattr(ctx, 'rule', 'replay of %s' % replay) + '; non-trivial = distinct (wrapper, outcome class) pairs: success, or (error code, message)',
+                   rule=getattr(ctx, 'rule', 'replay of %s' % replay) + '; non-trivial = distinct (wrapper or route, outcome class, data configuration) triples, outcome class = success, or (error code, message)',
                    samples=samples, totals=tot, error_codes_hit=codes, distribution=dist,
-                   wrapper_table=dict(c_prototypes=len(b['tables']['protos']), wrapper_entries=len(b['tables']['wrappers']), process_error=b['tables']['pe']),
+                   data_configurations=['shipped (data/kissel_pe.dat of the working tree: empty)'] + (['kissel-real (table regenerated from data/kissel by tools/regen_kissel.py, through the tree\'s prdata)'] if distK else []),
+                   distribution_kissel_real=distK,
+                   kissel_family=dict(wrappers=len(kfam), with_successful_calls_on_kissel_real=sum(1 for fn in kfam if okc.get(fn, {}).get('kissel_real', 0) > 0),
+                                      successful_calls={fn: okc.get(fn, {}).get('kissel_real', 0) for fn in kfam}),
+                   success_path=dict(wrappers_and_ops=len(okc), observed=sum(1 for o in okc.values() if o['shipped'] + o['kissel_real'] > 0), unobserved=unobserved),
+                   routes=dict(getattr(ctx, 'routes', {}), note='Bragg_angle, Q_scattering_amplitude, F_H_StructureFactor(_Partial), UnitCellVolume, dSpacing: every line through the Crystal::Struct method AND the '
+                               'free function of namespace Crystal (keys `<op>@free-function`); AddCrystal: StructAdd (method) / StructAddF (free function) lines'),
+                   error_codes=code_tab,
+                   error_codes_note='codes other than MEMORY (allocation-failure injection), INVALID_ARGUMENT and RUNTIME (built-in crystal array full) cannot be provoked through a wrapped C function on this tree: '
+                                    'IO is set by Crystal_ReadFile only (not wrapped by design), TYPE and UNSUPPORTED by nothing; for those the class and the message are compared on _process_error driven directly',
+                   wrapper_table=dict(c_prototypes=len(b['tables']['protos']), wrapper_entries=len(b['tables']['wrappers']), process_error=b['tables']['pe'],
+                                      return_terms=ret_summary(b['tables']), class_maps=len(t_.get('class_maps', [])), c_structs=sorted(t_.get('c_structs', {})), own_constructors=len(t_.get('own_ctors', []))),
                    known_findings_reproduced=[dict(key=k[0], calls=n, example=v['key']) for v, k, n in rep['known']],
                    allocation_failure_outcomes_not_judged=dict(count=len(ctx.skipped), why='injected allocation failure that the C code does not report (object with a NULL member, or abort): C03/C04 territory', examples=ctx.skipped[:4]),
                    leak_confirmation_lsan=lsan, leaking_calls=len(leaks), violations_found=len(viols),
@@ -648,9 +798,75 @@ def diagnose_table(t):
             out.append('%s forwards its parameters in the order %s to %s' % (where, fwd, w['callee']))
         if len(w['args']) != len(p['params']): out.append('%s calls %s with %d arguments, the prototype has %d' % (where, w['callee'], len(w['args']), len(p['params'])))
         if any(ty == 'errpp' for _, ty in p['params']) and not w['checked']: out.append('%s does not call _process_error(error) right after %s' % (where, w['callee']))
+        if 'ret' in w and jl(w['ret']) != expected_ret(w['kind'], p):
+            out.append('%s returns %s; for the C return type of %s the property asks for %s' % (where, ret_str(w['ret']), w['callee'], ret_str(expected_ret(w['kind'], p))))
     for w in ws:
         if w['kind'] == 'pattern' and not w['checked']: out.append('_XRL_FUNCTION overload of %s does not call _process_error(error) right after the C call' % w['name'])
+        if w['kind'] == 'delegate' and [a[1] if a[0] == 'param' else a[0] for a in w['args']] != list(range(len(w['params']))):
+            out.append('free function xrlpp::%s (xraylib++.h:%s) hands its parameters to the method %s in the order %s' % (w['name'], w.get('line'), w['callee'], [a[1] if a[0] == 'param' else a[0] for a in w['args']]))
+        if w['kind'] in ('pattern', 'delegate') and jl(w.get('ret', ['res'])) != ['res']: out.append('%s %s returns %s, not the result of the forwarded call' % (w['kind'], w['name'], ret_str(w['ret'])))
     return out
+
+COUNT_OF = {('compoundData', 'Elements'): 'nElements', ('compoundData', 'massFractions'): 'nElements', ('compoundData', 'nAtoms'): 'nElements',
+            ('compoundDataNIST', 'Elements'): 'nElements', ('compoundDataNIST', 'massFractions'): 'nElements',
+            ('radioNuclideData', 'XrayLines'): 'nXrays', ('radioNuclideData', 'XrayIntensities'): 'nXrays',
+            ('radioNuclideData', 'GammaEnergies'): 'nGammas', ('radioNuclideData', 'GammaIntensities'): 'nGammas', ('Crystal_Struct', 'atom'): 'n_atom'}     # = Spec.countOf
+
+def diagnose_maps(t):
+    """entry-level report for a failed `field_maps_complete` (same conditions as Spec.podMapOk / selfMapOk / ownCtorOk, to name the member)"""
+    out = []
+    cs = t.get('c_structs', {})
+    for m in t.get('class_maps', []):
+        where = 'xrlpp::%s%s (xraylib++.h:%s)' % (m['cls'], m['sig'], m.get('line'))
+        inits = {n: jl(f) for n, f in m['inits']}
+        members = t.get('class_members', {}).get(m['cls'], [])
+        if m['src'] == 'self':
+            for x in members:
+                if x != 'cs' and inits.get(x) != ['scalar', x]: out.append('%s: member %s is initialised with %s, not with the member of the same name of the source' % (where, x, ret_str(inits.get(x, ['nothing']))))
+        elif m['src'] in cs:
+            for f, k in cs[m['src']]:
+                exp = {'scalar': ['scalar', f], 'string': ['string', f], 'array': ['range', f, COUNT_OF.get((m['src'], f), '?')], 'atoms': ['atoms', f, COUNT_OF.get((m['src'], f), '?')]}.get(k, ['?'])
+                if inits.get(f) != exp: out.append('%s: C field %s of %s must initialise the member %s as %s; the header has %s' % (where, f, m['src'], f, ret_str(exp), ret_str(inits.get(f, ['nothing']))))
+            for x in members:
+                if x != 'cs' and x not in [f for f, _ in cs[m['src']]]: out.append('%s: data member %s has no counterpart in the C struct %s' % (where, x, m['src']))
+        elif m['src'] == '':
+            for o in t.get('own_ctors', []):
+                if o['sig'] != m['sig']: continue
+                for f, c in o['assigns']:
+                    if jl(c)[0] == 'other': out.append('%s: assignment to cs->%s not classified: %s' % (where, f, c))
+                for cnt, items in o['loops']:
+                    for a, f, g, v in items:
+                        if f != g or jl(v)[0] == 'other': out.append('%s: cs->%s[i].%s is assigned from element field %s (%s)' % (where, a, f, g, ret_str(v)))
+                want = [f for f, _ in cs.get('Crystal_Atom', [])]
+                got = [f for cnt, items in o['loops'] for a, f, g, v in items]
+                if got != want: out.append('%s: the atom copy loop assigns the fields %s, Crystal_Atom has %s' % (where, got, want))
+    return out
+
+def ret_str(t):
+    if not isinstance(t, (list, tuple)): return str(t)
+    return t[0] if len(t) == 1 else '%s(%s)' % (t[0], ', '.join(ret_str(x) for x in t[1:]))
+
+def ret_summary(t):
+    out = {}
+    for w in t['wrappers']:
+        k = ret_str(w.get('ret', ['?'])); out[k] = out.get(k, 0) + 1
+    return out
+
+def expected_ret(kind, p):
+    r = p['ret']
+    if r in ('double', 'int'): return ['res']
+    if r == 'cplx': return ['complex', ['field', ['res'], 're'], ['field', ['res'], 'im']]
+    if r == 'cstr': return ['string', ['res']]
+    if r == 'strlist':
+        k = [i for i, (_, ty) in enumerate(p['params']) if ty == 'outi']
+        return ['elems', 'std::string', ['res'], ['outArg', k[0] if k else -1]]
+    if r in ('cd', 'cdn', 'rnd'): return ['object', {'cd': 'compoundData', 'cdn': 'compoundDataNIST', 'rnd': 'radioNuclideData'}[r], ['res']]
+    if r == 'cs': return ['adopt', ['res']] if kind == 'ctor' else ['object', 'Crystal::Struct', ['res']]
+    if r == 'void': return ['none']
+    return ['?']
+
+def jl(x):
+    return [jl(y) for y in x] if isinstance(x, (list, tuple)) else x
 
 def failing_theorems(build_log):
     rel = os.path.relpath(PROPS_FILE, PROJECT)
@@ -673,5 +889,10 @@ def core_corpus(prop):
             if f.startswith(prop) and f.endswith('.lines'):
                 out += [l.strip() for l in open(os.path.join(d, f)) if l.strip() and not l.startswith('#')]
     return out
+
+class _Sub:
+    """view of a Scratch whose file names carry a tag (second build in the same scratch directory)"""
+    def __init__(self, sc, tag): self.sc = sc; self.tag = tag
+    def path(self, *p): return self.sc.path(*(list(p[:-1]) + [p[-1] + self.tag]))
 
 CHECK = C18()
